@@ -241,11 +241,9 @@ func getConditionTags(condition influxql.Expr, schema *CleanSchema) []*influx.Po
 		case influxql.OR:
 			ltags := getConditionTags(expr.LHS, schema)
 			rtags := getConditionTags(expr.RHS, schema)
-			if ltags == nil {
-				return rtags
-			}
-			if rtags == nil {
-				return ltags
+			// a side without tag constraint can be satisfied by rows of any shard: nothing can be pruned
+			if ltags == nil || rtags == nil {
+				return nil
 			}
 			return append(ltags, rtags...)
 		case influxql.EQ:
